@@ -53,7 +53,7 @@ let observe_forest (f : forest) (n : int) : string =
   done; Buffer.contents b
 
 let run_ast_prog (n : int) (prog : string) : (heap * forest * string) =
-  let fuel = nat_of_int (n + 2) in
+  let fuel = nat_of_int (2 * n + 2) in
   let ops = List.map parse_op (split_on ' ' prog) in
   let obs = ref [] in
   let h = ref empty_heap and f = ref empty_forest in
@@ -76,6 +76,82 @@ let visitor_of_script (script : string) : nat -> n -> bool -> (n * bool) =
 
 let trace_str tr = String.concat "," (List.map (fun (x, e) -> (if e then "+" else "-") ^ string_of_int (int_of_n x)) tr)
 
+(* ---------- C18: reader programs ---------- *)
+let seg_str (s : seg) = Printf.sprintf "%d,%d,%d" (int_of_z s.s_start) (int_of_z s.s_stop) (int_of_z s.s_pad)
+let mk_seg a b p = { s_start = z_of_int a; s_stop = z_of_int b; s_pad = z_of_int p; s_fnl = false }
+exception Model_panic of string
+let un = function Ok x -> x | Panic -> raise (Model_panic "PANIC") | OutOfFuel -> raise (Model_panic "FUEL")
+let ints_of s sep = List.map int_of_string (String.split_on_char sep s)
+
+type ('r) rops = {
+  peek : 'r -> n result; peek_line : 'r -> (('r * bytes option) * seg) result;
+  line_offset : 'r -> ('r * z) result; advance : 'r -> z -> 'r result; advance_line : 'r -> 'r result;
+  set_padding : 'r -> z -> 'r; set_position : 'r -> z -> seg -> 'r result;
+  adv_pad : 'r -> z -> z -> 'r result; preceding : 'r -> n result;
+  skip_blank : nat -> 'r -> ((('r * seg) * z) * bool) result; skip_spaces : nat -> 'r -> ((('r * seg) * z) * bool) result;
+  read_rune : 'r -> ((('r * n) * z) * bool) result;
+  find_closure : nat -> 'r -> n -> n -> fc_opts -> ('r * seg list option) result;
+  value : 'r -> seg -> bytes result; position : 'r -> z * seg }
+
+let run_reader_prog (type r) (ops : r rops) (r0 : r) (srclen : int) (script : string) : string =
+  let r = ref r0 in
+  let saved = ref [||] in
+  let fuel = nat_of_int (srclen + 8) in
+  let obs = ref [] in
+  (try List.iter (fun op ->
+    let arg = String.sub op 2 (String.length op - 2) in
+    let out =
+      (try
+        (match String.sub op 0 2 with
+        | "pl" -> let ((r', l), s) = un (ops.peek_line !r) in r := r';
+                  (match l with None -> "nil" | Some b -> hex_of_bytes b) ^ ":" ^ seg_str s
+        | "pk" -> string_of_int (int_of_n (un (ops.peek !r)))
+        | "ad" -> r := un (ops.advance !r (z_of_int (int_of_string arg))); ""
+        | "al" -> r := un (ops.advance_line !r); ""
+        | "ap" -> (match ints_of arg '.' with [n; p] -> r := un (ops.adv_pad !r (z_of_int n) (z_of_int p)); "" | _ -> failwith "ap")
+        | "sp" -> r := ops.set_padding !r (z_of_int (int_of_string arg)); ""
+        | "po" -> saved := Array.append !saved [| ops.position !r |]; ""
+        | "re" -> let (l, p) = !saved.(int_of_string arg) in
+                  r := un (ops.set_position !r l p);
+                  let ((r', l), _) = un (ops.peek_line !r) in r := r';
+                  (match l with None -> "nil" | Some b -> hex_of_bytes b)
+        | "lo" -> let (r', v) = un (ops.line_offset !r) in r := r'; string_of_int (int_of_z v)
+        | "pc" -> string_of_int (int_of_n (un (ops.preceding !r)))
+        | "ss" -> let (((r', s), n), ok) = un (ops.skip_spaces fuel !r) in r := r';
+                  Printf.sprintf "%s:%d:%s" (seg_str s) (int_of_z n) (s_of_bool ok)
+        | "sb" -> let (((r', s), n), ok) = un (ops.skip_blank fuel !r) in r := r';
+                  Printf.sprintf "%s:%d:%s" (seg_str s) (int_of_z n) (s_of_bool ok)
+        | "rr" -> let (((r', rn), sz), eof) = un (ops.read_rune !r) in r := r';
+                  Printf.sprintf "%d,%d,%s" (int_of_n rn) (int_of_z sz) (s_of_bool eof)
+        | "fc" -> (match ints_of arg '.' with
+                   | [o; c; bits] ->
+                     let opts = { o_codespan = bits land 1 <> 0; o_nesting = bits land 2 <> 0;
+                                  o_newline = bits land 4 <> 0; o_advance = bits land 8 <> 0 } in
+                     let (r', res) = un (ops.find_closure fuel !r (n_of_int o) (n_of_int c) opts) in
+                     r := r';
+                     (match res with None -> "no" | Some l -> "ok:" ^ String.concat ";" (List.map seg_str l))
+                   | _ -> failwith "fc")
+        | "va" -> (match ints_of arg '.' with
+                   | [a; b; p] -> hex_of_bytes (un (ops.value !r (mk_seg a b p)))
+                   | _ -> failwith "va")
+        | _ -> failwith ("bad reader op " ^ op))
+      with Model_panic m -> obs := m :: !obs; raise Exit) in
+    let (l, p) = ops.position !r in
+    obs := Printf.sprintf "%s@%d,%s" out (int_of_z l) (seg_str p) :: !obs)
+    (split_on ' ' script) with Exit -> ());
+  String.concat "|" (List.rev !obs)
+
+let plain_ops : reader rops = {
+  peek = r_peek; peek_line = rPeekLine; line_offset = r_line_offset; advance = r_advance;
+  advance_line = (fun r -> Ok (r_advance_line r)); set_padding = r_set_padding; set_position = r_set_position;
+  adv_pad = r_advance_and_set_padding; preceding = r_preceding; skip_blank = rSkipBlankLines; skip_spaces = rSkipSpaces;
+  read_rune = rReadRune; find_closure = rFindClosure; value = r_value; position = r_position }
+let block_ops : breader rops = {
+  peek = b_peek; peek_line = b_peek_line; line_offset = b_line_offset; advance = b_advance;
+  advance_line = b_advance_line; set_padding = b_set_padding; set_position = b_set_position;
+  adv_pad = b_advance_and_set_padding; preceding = b_preceding; skip_blank = bSkipBlankLines; skip_spaces = bSkipSpaces;
+  read_rune = bReadRune; find_closure = bFindClosure; value = b_value; position = b_position }
+
 let eval (fn : string) (args : string list) : string =
   match fn, args with
   | "AstProg", [n; prog] -> let (_, _, o) = run_ast_prog (int_of_string n) prog in o
@@ -92,4 +168,13 @@ let eval (fn : string) (args : string list) : string =
        if a <> b then "SPEC-DIFF(" ^ a ^ " vs " ^ b ^ ")" else a
      | Panic, _ | _, Panic -> "PANIC"
      | _, _ -> "FUEL")
+  | "ReaderProg", [src; script] ->
+    let b = bytes_of_hex src in
+    run_reader_prog plain_ops (new_reader b) (List.length b) script
+  | "BReaderProg", [src; lines; script] ->
+    let b = bytes_of_hex src in
+    let segs = List.map (fun l -> match ints_of l ',' with [a; b; p] -> mk_seg a b p | _ -> failwith "seg") (split_on ';' lines) in
+    (match new_block_reader b segs with
+     | Ok r -> run_reader_prog block_ops r (List.length b) script
+     | Panic -> "PANIC" | OutOfFuel -> "FUEL")
   | _ -> failwith ("unknown case kind " ^ fn)
